@@ -213,6 +213,10 @@ CFG = dict(
                  "run time that the pause took effect (Launch >= pause) and that Done() was entered DURING the pause; the model comparison "
                  "is off for that run. Any catchable signal is accepted as the hand-shake signal as long as signal.Notify listens for what "
                  "Done() sends (the model calls it SIGINT)",
+                 "GO SIDE ONLY: which goroutine / OS thread calls Done() is the handler's business: directly on the main thread, from a fresh "
+                 "goroutine while the handler waits, from a goroutine wired to its own OS thread (runtime.LockOSThread), or with the whole "
+                 "handler on such a goroutine; the daemon must be running ~300 ms after Launch returned in all of them (per-thread kernel "
+                 "state such as a parent-death signal is outside the model)",
                  "the forced schedule depends on the verif hook: its presence is checked in the source (glbfacts) and by timing "
                  "(a successful Launch under a 200 ms pause cannot take less than 200 ms)",
                  "GO SIDE ONLY: the daemon's standard streams are outside Model/Daemon.v. That a daemon which writes to its stderr "
